@@ -286,8 +286,20 @@ func cmdRun(args []string) int {
 	if anchors, unreached, total := coverageProbe(covDir, e.Anchors); total > 0 {
 		res.Extra["anchors"] = anchors
 		res.Extra["mux_functions_reached"] = total
+		var advisory []string
 		for _, a := range unreached {
-			inconclusive = append(inconclusive, "anchor function never entered by the workload: "+a)
+			// an exported entry point that exists but was never entered means the workload missed the property's code: inconclusive.
+			// An unexported helper may have been orphaned by a refactoring (kept only for its unit test): reported, not a verdict.
+			name := a[strings.LastIndexAny(a, ":.")+1:]
+			if name != "" && name[0] >= 'A' && name[0] <= 'Z' {
+				inconclusive = append(inconclusive, "anchor function never entered by the workload: "+a)
+			} else {
+				advisory = append(advisory, a)
+			}
+		}
+		if len(advisory) > 0 {
+			res.Extra["anchors_unexported_never_entered"] = advisory
+			fmt.Printf("NOTE unexported anchor function(s) never entered (dead code after a refactoring?): %s\n", strings.Join(advisory, ", "))
 		}
 	}
 
@@ -494,8 +506,9 @@ func cmdReplay(args []string) int {
 // and returns, for the property's anchor functions, the percentage of
 // statements executed. Anchors are matched by function name (receiver and type
 // parameters stripped), so moved lines do not break the probe; an anchor that
-// no longer exists is reported as "not found" and ignored, one that exists but
-// was never entered makes the run inconclusive.
+// no longer exists is reported as "not found" and ignored, an exported one that
+// exists but was never entered makes the run inconclusive, an unexported one
+// that was never entered is reported only (it may be dead code).
 func coverageProbe(covDir string, anchors []string) (map[string]any, []string, int) {
 	files, _ := filepath.Glob(filepath.Join(covDir, "covcounters.*"))
 	if len(files) == 0 {
